@@ -1845,7 +1845,11 @@ def _install_pandas_models():
             cols = list(data.items())
         else:
             raise OutOfSubset('DataFrame of a non-mapping')
-        return SDataFrame(cols, kwargs.get('index'))
+        df = SDataFrame(cols, kwargs.get('index'))
+        # ownership: DataFrame(dict of arrays) copies the arrays unless told otherwise (pandas default copy=None means copy for dict input)
+        cp = kwargs.get('copy', None)
+        df.owns_data = cp is None or cp is True
+        return df
     _MODELS[pd.DataFrame] = model_dataframe
 
 
